@@ -15,7 +15,7 @@ RULE_TEXT = "obligation = (rule, type / table entry / merge shape); evaluations 
 
 def run(ctx) -> None:
     for name, fn in (("W1", codec.rule_W1), ("W1-neg", _neg), ("W2", codec.rule_W2), ("W3", codec.rule_W3), ("W4", codec.rule_W4), ("T7", codec.rule_T7), ("N3", varint.rule_N3), ("N7", varint.rule_N7), ("N5", _n5),
-                     ("Z1", codec.rule_Z1), ("T1", codec.rule_T1), ("T6", codec.rule_T6), ("T2", codec.rule_T2), ("T2b", codec.rule_T2b), ("T3", codec.rule_T3)):
+                     ("Z1", codec.rule_Z1), ("T1", codec.rule_T1), ("T6", codec.rule_T6), ("T2", codec.rule_T2), ("T2b", codec.rule_T2b), ("T3", codec.rule_T3), ("T8", codec.rule_T8)):
         ctx.rules_run.append(name)
         fn(ctx)
     ctx.rules_run.append("D2")
